@@ -428,20 +428,16 @@ exit 0
 
 
 def run_model(worlds):
-    """the same orders on the Lean model (one driver process for the whole batch). The driver is
-    run under the lake lock so that a concurrent `lake build` cannot be relinking it meanwhile."""
+    """the same orders on the Lean model (one driver process for the whole batch).
+    `C.run_driver` itself waits for the lake lock and rebuilds a missing driver; never wrap it in
+    another `C.Lock("lake")` (flock is not re-entrant)."""
     reqs = [{"op": "sync_run", "n": w.n, "steps": w.macro} for w in worlds]
     if not reqs:
         return []
-    err = None
-    for attempt in range(3):
-        try:
-            with C.Lock("lake"):
-                return C.run_driver(reqs)
-        except Exception as e:      # binary missing / not executable: rebuild once, then give up
-            err = f"{type(e).__name__}: {e}"
-            C.lake_build(["driver"])
-    return [{"driver_error": err}] * len(reqs)
+    try:
+        return C.run_driver(reqs)
+    except Exception as e:
+        return [{"driver_error": f"{type(e).__name__}: {e}"}] * len(reqs)
 
 
 def canon_model(out):
